@@ -96,7 +96,7 @@ def _unit(bounded, stage=3, which="main"):
     rel = "include/parmcb/detail/spanning_forest.hpp"
     text = X.src(rel)
     body = X.body_after(text, r"std::size_t spanning_forest\(const Graph &g, OutputIterator spanning_forest_edges\)\s*", "spanning_forest")
-    body = X.canon(body, [(r"std::size_t (\w+) = 0;", ["c"]), (r"VertexIt (\w+), (\w+);", ["ui", "uiend"]),
+    body = X.canon(body, [(r"std::size_t (\w+) = 0;\s*while \(", ["c"]), (r"VertexIt (\w+), (\w+);", ["ui", "uiend"]),
                           (r"auto (\w+) = unreached\.begin\(\);", ["vi"]), (r"auto (\w+) = \*vi;", ["v"]),
                           (r"auto (\w+) = queue\.front\(\);", ["u"]), (r"auto (\w+) = boost::out_edges\(u, g\);", ["eiRange"]),
                           (r"for \(auto (\w+) = eiRange\.first;", ["ei"]), (r"auto (\w+) = \*ei;", ["e"]),
@@ -126,7 +126,7 @@ def _unit(bounded, stage=3, which="main"):
         (r"auto e = \*ei;", "size_t e = out_edge(u, ei);", 1, "container-api", ""),
         (r"auto w = boost::target\(e, g\);", "size_t w = out_target(u, ei);", 1, "container-api", "far endpoint of the out-edge at this slot"),
         (r"auto wit = unreached\.find\(w\);", "size_t wit = uset_find(w);", 1, "container-api", ""),
-        (r"wit == unreached\.end\(\)", "wit == NONE", 1, "container-api", ""),
+        (r"wit (==|!=) unreached\.end\(\)", r"wit \1 NONE", 1, "container-api", ""),
         (r"unreached\.erase\(wit\);", "uset_erase(wit); COMP[w] = c; ISROOT[w] = 0;", 1, "ghost", "erase + ghost: w joins the current component as a non-root"),
         (r"\*spanning_forest_edges\+\+ = e;", "EM[vp_emitted] = e; EMU[vp_emitted] = u; EMW[vp_emitted] = w; EMP[vp_emitted] = head - 1; POSOF[w] = vp_emitted; vp_emitted++;", 1, "ghost",
          "output iterator + ghost: edge at position vp_emitted discovered w from u"),
